@@ -96,15 +96,18 @@ def rule_sql2(A: Analysis, rep, Q=None):
     fi = A.fn(VI + "copy_entries_to")
     g = A.cfg(fi, "plain")
     table = {}
+    qmod_alias = [k for k, v in fi.module.imports.items() if A.prog.canonical(v) == A.prog.module(QMOD).name]
+    keep = lambda a: a in ("none(tasks)", "t(latest_only)")
     for n in g.nodes:
         if n.kind == "stmt":
             for c in walk_local(n.ast):
-                if isinstance(c, ast.Call) and isinstance(c.func, ast.Attribute) and c.func.attr == "execute":
-                    name = executed_query(A, c)
-                    gs = A.path_guards(g, g.entry, n, fi)
-                    for cj in gs:
-                        key = (("none(tasks)", True) in cj, ("t(latest_only)", True) in cj)
-                        table.setdefault(key, set()).add(name)
+                if isinstance(c, ast.Call) and isinstance(c.func, ast.Attribute) and c.func.attr == "execute" and c.args:
+                    for (cj, val) in A.rvalues(fi, c.args[0], n, g, keep=keep):
+                        name = val.split(".", 1)[1] if "." in val and val.split(".", 1)[0] in qmod_alias else None
+                        # a guard that does not mention one of the two flags covers both of its values
+                        for tn in ([True, False] if not any(a == "none(tasks)" for a, _ in cj) else [("none(tasks)", True) in cj]):
+                            for lo in ([True, False] if not any(a == "t(latest_only)" for a, _ in cj) else [("t(latest_only)", True) in cj]):
+                                table.setdefault((tn, lo), set()).add(name)
     want = {(True, True): {"all_entries_latest"}, (True, False): {"all_entries"}, (False, True): {"latest_entry_for_task"}, (False, False): {"all_entries_for_task"}}
     rep.check(table == want, "SQL2", "copy_entries_to picks the query by (tasks is None, latest_only)", fi.node,
               "2×2 table: all/latest × project-wide/per-task", "copy_entries_to selection table is %s" % table)
@@ -113,9 +116,16 @@ def rule_sql2(A: Analysis, rep, Q=None):
     ok = len(loops) == 1 and not any(isinstance(x, (ast.Break, ast.Continue)) for x in walk_local(loops[0]))
     bl = A.calls_in_func(fi, "VersionIndex.bulk_load")
     ok = ok and len(bl) == 2 and all(norm(c.func.value) == fi.params[1] and norm(c.args[0]) == "cursor" for c in bl)
+    # every execute is followed by a bulk_load of that cursor before the next execute / the return
+    exn = [n for n in g.nodes if n.kind == "stmt" and any(isinstance(c, ast.Call) and isinstance(c.func, ast.Attribute) and c.func.attr == "execute" for c in walk_local(n.ast))]
+    bln = [n for n in g.nodes if n.kind in ("stmt",) and A.calls_in(n.ast, "VersionIndex.bulk_load")]
+    ok = ok and all(g.all_paths_pass(e_, g.exit, bln, skip_labels=is_exc) for e_ in exn)
     rep.check(ok, "SQL2", "every selected row is loaded into dest", fi.node, "", "copy_entries_to does not bulk_load every selected cursor into `dest`")
     binds = [c for c in walk_local(fi.node) if isinstance(c, ast.Call) and isinstance(c.func, ast.Attribute) and c.func.attr == "execute" and len(c.args) == 2]
-    rep.check(all(norm(c.args[1]) == "(str(task_id),)" for c in binds) and len(binds) == 2, "SQL2", "per-task binding", fi.node, "", "per-task queries are not bound to str(task_id)")
+    loops_t = [l for l in walk_local(fi.node) if isinstance(l, ast.For) and norm(l.iter) == "tasks"]
+    tv = norm(loops_t[0].target) if loops_t else "?"
+    rep.check(all(norm(c.args[1]) == "(str(%s),)" % tv and id(c) in {id(x) for x in ast.walk(loops_t[0])} for c in binds) and len(binds) >= 1 and bool(loops_t), "SQL2", "per-task binding", fi.node, "",
+              "per-task queries are not bound to str(<task id>) inside the loop over `tasks`")
     rep.expect_min("SQL2", 6)
     return Q
 
@@ -306,24 +316,50 @@ def rule_vi5(A: Analysis, rep, Q=None):
     ok = q is not None and q["type"] == "select" and colnames(q) == ["MAX(timestamp)"] and q["from"] == "version_index" and not q["where"] and not q["joins"]
     rep.check(ok, "VI5", "seed query = MAX(timestamp) over all rows", A.prog.module(QMOD).tree, "", "get_max_timestamp is %s" % q)
     fi = A.fn(VI + "create_or_load")
+    init = A.fn(VI + "__init__")
     cons = [c for c in A.calls_in_func(fi, VI_CLS)]
-    seeded = [c for c in cons if A.kw(c, "last_timestamp") is not None]
+    g = A.cfg(fi, "plain")
+    seeded, fresh = [], []
+    for c in cons:
+        b = A.bind_args(c, init)
+        lt_ = b.get("last_timestamp")
+        if lt_ is None:
+            continue
+        at = _stmt_of(c)
+        # value of last_timestamp reaching the construction, keeping only the None-tests of the fetched row
+        rv = A.rvalues(fi, lt_, at, g, keep=lambda a: a.startswith("none("), depth=4)
+        if all(v == "0" for _c, v in rv):
+            fresh.append((c, rv))
+        else:
+            seeded.append((c, rv))
     ok = False
+    det = "%d construction(s) seeded from the index" % len(seeded)
     if len(seeded) == 1:
-        v = A.kw(seeded[0], "last_timestamp")
-        res = None
-        if isinstance(v, ast.IfExp):
-            d = A.dnf(v.test, True, fi, inline=False)
-            res = norm(v.body).split("[")[0]
-            ok = norm(v.body) == "%s[0]" % res and norm(v.orelse) == "0" and d == [frozenset({("none(%s)" % res, False), ("none(%s[0])" % res, False)})]
+        c, rv = seeded[0]
+        vals = {v for _c, v in rv}
+        rows = sorted({v for v in vals if v != "0"})
+        ok = len(rows) == 1 and rows[0].endswith("[0]")
         if ok:
-            src = A.single_def_value(fi, res)
-            ok = src is not None and isinstance(src, ast.Call) and norm(src.func).endswith(".fetchone") and \
-                isinstance(src.func.value, ast.Call) and executed_query(A, src.func.value) == "get_max_timestamp"
+            row = rows[0][:-3]
+            # row comes from <conn>.execute(q.get_max_timestamp).fetchone()
+            src_ok = False
+            for cc in walk_local(fi.node):
+                if isinstance(cc, ast.Call) and isinstance(cc.func, ast.Attribute) and cc.func.attr == "fetchone" and isinstance(cc.func.value, ast.Call) and \
+                        executed_query(A, cc.func.value) == "get_max_timestamp":
+                    src_ok = True
+            rowx = row
+            want_row = [frozenset({("none(%s)" % rowx, False), ("none(%s[0])" % rowx, False)})]
+            got_row = sorted(map(sorted, [c_ for c_, v in rv if v == rows[0]]))
+            got_zero = [c_ for c_, v in rv if v == "0"]
+            from ..analysis import _simplify
+            zero_ok = sorted(map(sorted, _simplify(got_zero))) in (
+                sorted(map(sorted, [frozenset({("none(%s)" % rowx, True)}), frozenset({("none(%s[0])" % rowx, True)})])),
+                sorted(map(sorted, [frozenset({("none(%s)" % rowx, True)}), frozenset({("none(%s)" % rowx, False), ("none(%s[0])" % rowx, True)})])))
+            ok = src_ok and got_row == sorted(map(sorted, want_row)) and zero_ok
+            det = "last_timestamp takes %s (row fetched from get_max_timestamp: %s)" % ([(fmt_conj(c_), v) for c_, v in rv], src_ok)
     rep.check(ok, "VI5", "seed from the recorded maximum", fi.node, "an existing index seeds last_timestamp with MAX(timestamp) (0 when empty)",
-              "create_or_load does not seed last_timestamp from get_max_timestamp")
-    fresh = [c for c in cons if A.kw(c, "last_timestamp") is None]
-    rep.check(len(fresh) == 1 and len(fresh[0].args) >= 2 and norm(fresh[0].args[1]) == "0", "VI5", "new index starts at 0", fi.node, "", "a new index is not seeded with 0", deep=False)
+              "create_or_load does not seed last_timestamp from get_max_timestamp: " + det)
+    rep.check(len(fresh) == 1, "VI5", "new index starts at 0", fi.node, "", "a new index is not seeded with 0", deep=False)
     cl = A.fn(VI + "clone")
     cc = [c for c in A.calls_in_func(cl, VI_CLS)]
     rep.check(len(cc) == 1 and A.kw(cc[0], "last_timestamp") is not None and norm(A.kw(cc[0], "last_timestamp")) == "self._last_timestamp", "VI5", "clone keeps the counter", cl.node,
@@ -344,22 +380,16 @@ def rule_vi6(A: Analysis, rep):
         b = A.bind_args(cons[0], A.fn("execution.version_index.Version.__init__"))
         ch = b.get("commit_hash")
         dirty = b.get("has_uncommitted_changes")
-        ok_dirty = dirty is not None and norm(dirty) in ("%s.has_changes if %s is not None else False" % (commit, commit),)
-        ok_hash = False
-        if ch is not None and isinstance(ch, ast.Name):
-            defs = A.defs(gen, ch.id)
-            vals = sorted(norm(d.value) for d in defs if isinstance(d, (ast.Assign, ast.AnnAssign)) and d.value is not None)
-            ok_hash = vals == sorted(["%s.hash" % commit, "None"])
-            if ok_hash:
-                g = A.cfg(gen, "plain")
-                for d in defs:
-                    if norm(d.value) == "%s.hash" % commit:
-                        gs = A.path_guards(g, g.entry, g.node_of(d), gen)
-                        ok_hash = ok_hash and all(("none(%s)" % commit, False) in c for c in gs)
-        elif ch is not None:
-            ok_hash = norm(ch) == "%s.hash if %s is not None else None" % (commit, commit)
+        at = _stmt_of(cons[0])
+        keep = lambda a: a == "none(%s)" % commit
+        none_t, none_f = frozenset({("none(%s)" % commit, True)}), frozenset({("none(%s)" % commit, False)})
+        rv_h = A.rvalues(gen, ch, at, keep=keep) if ch is not None else []
+        rv_d = A.rvalues(gen, dirty, at, keep=keep) if dirty is not None else []
+        ok_hash = set(rv_h) == {(none_f, "%s.hash" % commit), (none_t, "None")}
+        ok_dirty = set(rv_d) == {(none_f, "%s.has_changes" % commit), (none_t, "False")}
         ok = ok_dirty and ok_hash
-        det = "commit_hash ok=%s, dirty flag ok=%s" % (ok_hash, ok_dirty)
+        det = "commit_hash takes %s, dirty flag takes %s (expected commit.hash / commit.has_changes when a commit is given, None / False otherwise)" % (
+            [(fmt_conj(c), v) for c, v in rv_h], [(fmt_conj(c), v) for c, v in rv_d])
     rep.check(ok, "VI6", "version carries the commit's hash and dirty flag", gen.node, "Version(ts, commit.hash, commit.has_changes)", det)
     cnv = A.fn("task_types.run.RunExperiment._create_new_version")
     calls = A.calls_in_func(cnv, "VersionIndex.generate_new_output_version")
